@@ -242,6 +242,9 @@ func shape(s string) string {
 	return out
 }
 
+// conversions of float literals recorded for JudgeNearest.tla
+var nearCases []numx.NearCase
+
 func checkText(c *lib.Ctx, ev *eval.Evaler, lc lcase) error {
 	s := lc.str()
 	cl := lc.Cls
@@ -267,6 +270,50 @@ func checkText(c *lib.Ctx, ev *eval.Evaler, lc lcase) error {
 			return nil
 		}
 	}
+	if cl.K == "float" && direct.ok && direct.res.Cls == "float" {
+		m := []int(cl.M)
+		if m == nil {
+			m = []int{}
+		}
+		nearCases = append(nearCases, numx.NearCase{Kind: "dec", Neg: cl.Neg, M: m, D: []int{1}, Sc: cl.Sc, Bits: numx.HexDigits(direct.res.F)})
+	}
+	return nil
+}
+
+// judgeNearest lets TLC decide whether the doubles `num` produced for float literals are the
+// correctly rounded ones (Nearest.tla): a cost-bounded sample of the recorded conversions.
+func judgeNearest(c *lib.Ctx) error {
+	budget := c.Pick(2500, 120000) // total cost in limbs
+	max := c.Pick(250, 6000)
+	var sel []numx.NearCase
+	c.Rand.Shuffle(len(nearCases), func(i, j int) { nearCases[i], nearCases[j] = nearCases[j], nearCases[i] })
+	for _, n := range nearCases {
+		if k := n.Cost(); k <= budget && len(sel) < max {
+			budget -= k
+			sel = append(sel, n)
+		}
+	}
+	// vacuity guard: 0.1 rounded the wrong way must be rejected
+	sel = append(sel, numx.NearCase{Kind: "dec", Neg: false, M: []int{1}, D: []int{1}, Sc: -1, Bits: numx.HexDigits(math.Float64bits(math.Nextafter(0.1, 1)))})
+	bad, err := lib.Judge(c, "JudgeNearest", c.SpecDir("Arith"), "JudgeNearest", sel, c.Pick(2, 4), 14*time.Minute)
+	if err != nil {
+		return err
+	}
+	guard := false
+	for _, b := range bad {
+		if b.Index == len(sel)-1 {
+			guard = true
+			continue
+		}
+		n := sel[b.Index]
+		c.Reject("literal:float:not-correctly-rounded", fmt.Sprintf("num of a literal with value %v*10^%d gives bits %x: Nearest.tla: not the nearest double", nat(n.M).big(), n.Sc, numx.FromHex(n.Bits)), n)
+	}
+	if !guard {
+		return lib.Infra("vacuity guard: JudgeNearest accepted a wrongly rounded 0.1")
+	}
+	c.AddTraces(len(sel) - 1)
+	c.Set("conversions_judged_by_tlc", len(sel)-1)
+	c.Logf("float conversions judged by TLC: %d of %d", len(sel)-1, len(nearCases))
 	return nil
 }
 
@@ -404,9 +451,13 @@ func run(c *lib.Ctx) error {
 		c.Reject("roundtrip:"+rc.X.Cls+"->"+y, fmt.Sprintf("to-string gives %q, num of it gives %s (x: %s)", rc.S, y, rc.X.Cls), rc)
 	}
 	c.AddTraces(len(rts))
+	// ---- V (c): correct rounding of float literals, decided by TLC
+	if err := judgeNearest(c); err != nil {
+		return err
+	}
 	c.Set("bounds", map[string]any{"generated_literals": n, "random_texts": len(texts), "round_trips": len(rts)})
 	c.Logf("round trips: %d judged", len(rts))
-	c.Assume("TLC is trusted; NumLit.tla is the reading of 'Number' in language.md; exact values and classes are computed by TLC (BigNat); for float literals TLC fixes the exact decimal value and the executor applies NearestDouble = big.Rat.Float64, re-checked against both neighbouring doubles with exact rational arithmetic")
+	c.Assume("TLC is trusted; NumLit.tla is the reading of 'Number' in language.md; exact values and classes are computed by TLC (BigNat); for float literals TLC fixes the exact decimal value; the executor compares with NearestDouble = big.Rat.Float64 (re-checked against both neighbouring doubles with exact rational arithmetic) and a cost-bounded sample of the produced doubles is judged by TLC itself (Nearest.tla, BigNat)")
 	c.Assume("float literals at or beyond the rounding boundary of the largest double, with exponents beyond +-400, and every spelling the reference does not mention are Unspecified (accepted either way)")
 	return nil
 }
@@ -415,7 +466,7 @@ func run(c *lib.Ctx) error {
 func roundTrips(c *lib.Ctx, ev *eval.Evaler) ([]rtCase, error) {
 	g := &numx.Gen{R: c.Rand}
 	r := c.Rand
-	n := c.Pick(20000, 240000)
+	n := c.Pick(12000, 240000)
 	var xs []any
 	for _, f := range []float64{0, math.Copysign(0, -1), math.Inf(1), math.Inf(-1), math.NaN(), 5e-324, -5e-324, 2.2250738585072014e-308, 2.225073858507201e-308,
 		math.MaxFloat64, -math.MaxFloat64, 1e21, 1e20, 123456789012345680, 1e14, 1e15, 99999999999999.98, 1e-5, 1e-4, 0.0001, 0.00001, 1.5, 0.1, 1e23, 9007199254740993} {
@@ -516,7 +567,7 @@ var junk = []string{"", " ", "+", "-", "--1", "+-1", "1e", "1e+", "0x", "0o", "0
 // underscores, mutations of them, and junk.  They are inputs; TLC classifies each.
 func randomTexts(c *lib.Ctx) []lcase {
 	r := c.Rand
-	n := c.Pick(2500, 60000)
+	n := c.Pick(2000, 60000)
 	var out []lcase
 	add := func(s string) {
 		if len(s) <= 60 && utf8.ValidString(s) {
